@@ -159,15 +159,15 @@ def genComputeFaceNormals (sqrt : Rat → Rat) (points : List (List Rat)) (trili
   let b0 := p0.2.1
   let c0 := p0.2.2
   let norm0 := (Np.cross (b0 - a0) (c0 - a0))
-  (genNormalize sqrt norm0)
+  (genNormalize sqrt (norm0 : List (List Rat)))
 
-def genComputeVertexNormals (sqrt : Rat → Rat) (points : List (List Rat)) (trilist : List (List Nat)) : List (List Rat) :=
+def genComputeVertexNormals (sqrt : Rat → Rat) (pdt : Np.DType) (points : List (List Rat)) (trilist : List (List Nat)) : List (List Rat) :=
   let facenormals0 := (genComputeFaceNormals sqrt points trilist)
-  let vertexnormals0 := (Np.zerosLike points)
-  let vertexnormals1 := (Np.addAt vertexnormals0 (Np.col trilist (0)) facenormals0)
-  let vertexnormals0 := (Np.addAt vertexnormals1 (Np.col trilist (1)) facenormals0)
-  let vertexnormals1 := (Np.addAt vertexnormals0 (Np.col trilist (2)) facenormals0)
-  (genNormalize sqrt vertexnormals1)
+  let vertexnormals0 := (Np.zerosDT points Np.DType.float)
+  let vertexnormals1 := (Np.addAtDT vertexnormals0 (Np.col trilist (0)) facenormals0)
+  let vertexnormals0 := (Np.addAtDT vertexnormals1 (Np.col trilist (1)) facenormals0)
+  let vertexnormals1 := (Np.addAtDT vertexnormals0 (Np.col trilist (2)) facenormals0)
+  (genNormalize sqrt (vertexnormals1 : List (List Rat)))
 
 def genTriNormals {C T : Type} (sqrt : Rat → Rat) (s : NMesh (List Rat) C T) : Except Err (List (List Rat)) :=
   if ((s.ndims != (3))) then
@@ -175,11 +175,11 @@ def genTriNormals {C T : Type} (sqrt : Rat → Rat) (s : NMesh (List Rat) C T) :
   else
     .ok (genComputeFaceNormals sqrt s.points s.trilist)
 
-def genVertexNormals {C T : Type} (sqrt : Rat → Rat) (s : NMesh (List Rat) C T) : Except Err (List (List Rat)) :=
+def genVertexNormals {C T : Type} (sqrt : Rat → Rat) (pdt : Np.DType) (s : NMesh (List Rat) C T) : Except Err (List (List Rat)) :=
   if ((s.ndims != (3))) then
     .error .shape
   else
-    .ok (genComputeVertexNormals sqrt s.points s.trilist)
+    .ok (genComputeVertexNormals sqrt pdt s.points s.trilist)
 
 def genFromMaskTriMeshH {α : Type} (w : World α) (s : Nat) (mask : List Bool) : Except Err (Nat × World α) :=
   if (((Np.shape0 mask) != (Np.shape0 (World.getRows w s .points).val))) then
